@@ -2,6 +2,9 @@ package eng
 
 import (
 	"fmt"
+	"runtime"
+	"sync/atomic"
+	"unsafe"
 
 	"github.com/mlange-42/ark/ecs"
 	u "verifharness/universe"
@@ -444,4 +447,200 @@ func b7() []string {
 		out = append(out, fmt.Sprintf("after 70000 create/remove cycles of one ID: %+v, want Used 1 Total 2", s))
 	}
 	return out
+}
+
+type big65535 struct{ B [65535]byte }
+type big65536 struct{ B [65536]byte }
+type big65537 struct{ B [65537]byte }
+type big70000 struct{ B [70000]byte }
+type big131072 struct{ B [131072]byte }
+
+func init() {
+	Scenarios = append(Scenarios, Scenario{Name: "B8-components-of-64KiB-and-more", Props: []string{"C01", "C11"}, Run: func() []string {
+		var out []string
+		out = append(out, bigComponent[big65535]()...)
+		out = append(out, bigComponent[big65536]()...)
+		out = append(out, bigComponent[big65537]()...)
+		out = append(out, bigComponent[big70000]()...)
+		out = append(out, bigComponent[big131072]()...)
+		return out
+	}})
+}
+
+// bigComponent drives a component type of 64 KiB or more through creation, moves, swap-removal, queries and creation without
+// initial values; every byte position class (first, last, around 2^16) carries the owner's tag.
+func bigComponent[T any]() []string {
+	var out []string
+	var zero T
+	size := int(unsafe.Sizeof(zero))
+	bytesOf := func(p *T) []byte { return unsafe.Slice((*byte)(unsafe.Pointer(p)), size) }
+	pos := []int{0, 1, size / 2, size - 1}
+	for _, p := range []int{65534, 65535, 65536, 65537} {
+		if p < size {
+			pos = append(pos, p)
+		}
+	}
+	fill := func(p *T, tag byte) {
+		b := bytesOf(p)
+		for _, i := range pos {
+			b[i] = tag
+		}
+	}
+	ok := func(p *T, tag byte) bool {
+		b := bytesOf(p)
+		for _, i := range pos {
+			if b[i] != tag {
+				return false
+			}
+		}
+		return true
+	}
+	w := ecs.NewWorld(2)
+	m := ecs.NewMap1[T](w)
+	m8 := ecs.NewMap1[u.P8](w)
+	es := make([]ecs.Entity, 6)
+	for i := range es {
+		var v T
+		fill(&v, byte(i+1))
+		es[i] = m.NewEntity(&v)
+	}
+	verify := func(when string, skip int) {
+		for i, e := range es {
+			if i == skip {
+				continue
+			}
+			if !ok(m.Get(e), byte(i+1)) {
+				out = append(out, fmt.Sprintf("component of %d bytes, %s: entity %d does not read its own value at one of the offsets %v", size, when, i, pos))
+				return
+			}
+		}
+	}
+	verify("after creation", -1)
+	fill(m.Get(es[3]), 3+1) // rewriting one entity's value leaves the others alone
+	verify("after rewriting entity 3", -1)
+	m8.Add(es[2], &u.P8{V: 5}) // moves entity 2 to another table (swap-removes in the old one)
+	verify("after moving entity 2", -1)
+	m8.Remove(es[2])
+	verify("after moving entity 2 back", -1)
+	w.RemoveEntity(es[0])
+	verify("after removing entity 0", 0)
+	f := ecs.NewFilter1[T](w)
+	q := f.Query()
+	n := 0
+	for q.Next() {
+		n++
+		tag := byte(0)
+		for i, e := range es {
+			if e == q.Entity() {
+				tag = byte(i + 1)
+			}
+		}
+		if !ok(q.Get(), tag) {
+			out = append(out, fmt.Sprintf("component of %d bytes: the query hands out a pointer for %v that does not read the entity's value", size, q.Entity()))
+		}
+	}
+	if n != 5 {
+		out = append(out, fmt.Sprintf("component of %d bytes: query visits %d entities, want 5", size, n))
+	}
+	w.RemoveEntities(f.Batch(), nil)
+	m.NewBatchFn(3, func(e ecs.Entity, p *T) {
+		if !ok(p, 0) {
+			out = append(out, fmt.Sprintf("component of %d bytes: an entity created without initial value reads non-zero bytes", size))
+		}
+	})
+	return out
+}
+
+func init() {
+	Scenarios = append(Scenarios, Scenario{Name: "F34-rejected-creation-leaves-an-archetype-without-table", Props: []string{"C03", "C07", "C16"}, Run: func() []string {
+		// a creation that is rejected because a non-relation component is named as relation (the archetype being new)
+		// must leave a world in which queries, creations and Reset work
+		var out []string
+		for variant := 0; variant < 3; variant++ {
+			w := ecs.NewWorld(4)
+			p8 := ecs.ComponentID[u.P8](w)
+			p4 := ecs.ComponentID[u.P4](w)
+			r0 := ecs.ComponentID[u.R0](w)
+			tgt := w.NewEntity()
+			var p any
+			switch variant {
+			case 0:
+				p = try(func() { w.Unsafe().NewEntityRel([]ecs.ID{p8}, ecs.RelID(p8, ecs.Entity{})) })
+			case 1:
+				e := w.NewEntity()
+				p = try(func() { w.Unsafe().AddRel(e, []ecs.ID{p8, p4}, ecs.RelID(p4, tgt)) })
+			case 2:
+				// a relation component that is not among the components of the new archetype
+				p = try(func() { w.Unsafe().NewEntityRel([]ecs.ID{p8}, ecs.RelID(r0, tgt)) })
+			}
+			what := fmt.Sprintf("variant %d (the call panicked: %v)", variant, p != nil)
+			if pq := try(func() {
+				q := ecs.NewFilter1[u.P8](w).Query()
+				n := q.Count()
+				for q.Next() {
+				}
+				if p != nil && n != 0 {
+					out = append(out, fmt.Sprintf("%s: a query for the component counts %d entities after the rejected creation", what, n))
+				}
+			}); pq != nil {
+				out = append(out, fmt.Sprintf("%s: a valid query panicked afterwards: %v", what, pq))
+			}
+			if w.IsLocked() {
+				out = append(out, fmt.Sprintf("%s: the world is left locked", what))
+				continue
+			}
+			if pc := try(func() { ecs.NewMap1[u.P8](w).NewEntity(&u.P8{V: 1}) }); pc != nil {
+				out = append(out, fmt.Sprintf("%s: a valid creation panicked afterwards: %v", what, pc))
+			}
+			if pr := try(func() { w.Reset() }); pr != nil {
+				out = append(out, fmt.Sprintf("%s: Reset panicked afterwards: %v", what, pr))
+			}
+		}
+		return out
+	}})
+}
+
+func init() {
+	Scenarios = append(Scenarios, Scenario{Name: "F35-world-usable-after-a-rejected-65th-query", Props: []string{"C07"}, Run: func() []string {
+		// 64 queries may be open at once; a 65th is rejected with a panic. After recovering from it the 64 open queries can
+		// still be closed and the world unlocks. (A blocked Close is detected by scheduling steps, not by wall-clock time: the
+		// closing goroutine needs no time slice worth mentioning.)
+		var out []string
+		w := ecs.NewWorld(4)
+		m := ecs.NewMap1[u.P8](w)
+		m.NewEntity(&u.P8{V: 1})
+		f := ecs.NewFilter1[u.P8](w)
+		qs := make([]ecs.Query1[u.P8], 64)
+		for i := range qs {
+			qs[i] = f.Query()
+		}
+		if p := try(func() { f.Query() }); p == nil {
+			out = append(out, "a 65th simultaneous query was accepted")
+		}
+		var done atomic.Bool
+		go func() {
+			for i := range qs {
+				qs[i].Close()
+			}
+			done.Store(true)
+		}()
+		for i := 0; i < 2_000_000 && !done.Load(); i++ {
+			runtime.Gosched()
+		}
+		if !done.Load() {
+			return append(out, "after the rejected 65th query, closing the 64 open queries blocks for ever (the lock's mutex is still held)")
+		}
+		if w.IsLocked() {
+			out = append(out, "world still locked after all 64 queries were closed")
+		}
+		if p := try(func() { w.RemoveEntity(w.NewEntity()) }); p != nil {
+			out = append(out, fmt.Sprintf("structural operation after closing all queries panicked: %v", p))
+		}
+		q := f.Query()
+		if n := q.Count(); n != 1 {
+			out = append(out, fmt.Sprintf("a query after the episode counts %d, want 1", n))
+		}
+		q.Close()
+		return out
+	}})
 }
